@@ -18,32 +18,34 @@ Qed.
 (* The parse phase takes exactly the lines the parser needs.           *)
 
 Section Decides.
-  Context (parser : pstate -> list line -> pres).
+  Context (parser : list pstate -> list line -> pres).
 
-  Lemma pull_loop_decides (fuel : nat) : forall st fed ls off r s' ls' off' eof',
+  Lemma pull_loop_decides (fuel : nat) : forall sts fed ls off r fed' s' ls' off' eof',
     no_empty ls ->
-    pull_loop line_ops parser fuel st fed LShared ls off false = (PhDone r, (s', ls', off', eof')) ->
+    pull_loop line_ops parser fuel sts fed LShared ls off false
+      = (PhDone r, (fed', s', ls', off', eof')) ->
     exists k, (1 <= k <= S (length ls))%nat /\
-      parser st (fed ++ firstn k (feedable ls)) = r /\ r <> PNeedMore /\
-      (forall j, (1 <= j < k)%nat -> parser st (fed ++ firstn j (feedable ls)) = PNeedMore) /\
+      parser sts (fed ++ firstn k (feedable ls)) = r /\ r <> PNeedMore /\
+      (forall j, (1 <= j < k)%nat -> parser sts (fed ++ firstn j (feedable ls)) = PNeedMore) /\
+      fed' = fed ++ firstn k (feedable ls) /\
       s' = LShared /\ ls' = skipn k ls /\ off' = off + nlen (concat (firstn k ls)) /\
       eof' = Nat.eqb k (S (length ls)).
   Proof.
-    induction fuel as [|f IH]; intros st fed ls off r s' ls' off' eof' Hne H; cbn [pull_loop] in H.
+    induction fuel as [|f IH]; intros sts fed ls off r fed' s' ls' off' eof' Hne H; cbn [pull_loop] in H.
     - discriminate.
     - destruct ls as [|l rest].
-      + cbn in H. destruct (parser st (fed ++ [[]])) eqn:E; inversion H; subst;
+      + cbn in H. destruct (parser sts (fed ++ [[]])) eqn:E; inversion H; subst;
           (exists 1%nat; cbn;
            repeat split; try lia; try discriminate; try exact E; try (intros j Hj; lia)).
       + inversion Hne as [|? ? Hl Hrest]; subst.
         cbn [op_pull line_ops line_pull orb] in H.
         destruct l as [|b l]; [contradiction|].
-        destruct (parser st (fed ++ [b :: l])) eqn:E.
+        destruct (parser sts (fed ++ [b :: l])) eqn:E.
         * (* wants more *)
           apply IH in H; [|assumption].
-          destruct H as [k [Hk [Hp [Hr [Hmin [Hs [Hls [Hoff Heof]]]]]]]].
+          destruct H as [k [Hk [Hp [Hr [Hmin [Hfed [Hs [Hls [Hoff Heof]]]]]]]]].
           exists (S k). cbn [feedable app firstn skipn length concat].
-          rewrite <- app_assoc in Hp. cbn [app] in Hp.
+          rewrite <- app_assoc in Hp, Hfed. cbn [app] in Hp, Hfed.
           repeat split; try lia; try assumption.
           -- intros j Hj. destruct j as [|j]; [lia|]. cbn [firstn].
              destruct j as [|j].
@@ -105,11 +107,11 @@ Proof.
 Qed.
 
 Lemma line_read_pops (raw : bool) (i : list line) :
-  let '(_, _, rest, n) := line_read raw i in pops i rest n.
+  let '(_, _, rest, n) := line_read_nl raw i in pops i rest n.
 Proof.
-  induction i as [|l i IH]; cbn [line_read]; [apply pops_refl|].
+  induction i as [|l i IH]; cbn [line_read_nl]; [apply pops_refl|].
   destruct (scan_line raw l) as [cs e]. destruct e; try apply pops_cons.
-  destruct (line_read raw i) as [[[cs' f] r] n].
+  destruct (line_read_nl raw i) as [[[cs' f] r] n].
   eapply pops_trans; [apply pops_cons | exact IH].
 Qed.
 
@@ -123,7 +125,8 @@ Qed.
 (* Positions are line boundaries.                                      *)
 
 Section Aligned.
-  Context (parser : pstate -> list line -> pres) (L0 : list line).
+  Context (parser : list pstate -> list line -> pres) (L0 : list line).
+  Hypothesis parser_reads_lines : reads_lines parser.
 
   (* the input is a suffix of the original lines and the position is the
      length of what was taken *)
@@ -154,15 +157,17 @@ Section Aligned.
     constructor; [|constructor]. left. reflexivity.
   Qed.
 
-  Lemma exec_ok (c : cmd) : forall x, x_ok x -> x_ok (fst (exec line_ops c x)).
+  Lemma exec_ok (c : cmd) : forall x, nl_cmd c = true -> x_ok x -> x_ok (fst (exec line_ops c x)).
   Proof.
-    induction c; intros x Hx; cbn [exec].
+    induction c; intros x Hnl Hx; cbn [exec]; cbn [nl_cmd] in Hnl;
+      repeat match goal with H : _ && _ = true |- _ => apply andb_true_iff in H; destruct H end.
     - exact Hx.
     - exact Hx.
     - apply x_ok_with_status. now apply x_ok_emit.
     - apply x_ok_with_status. now apply x_ok_emit.
-    - cbn [op_read line_ops]. pose proof (line_read_pops raw (x_in x)) as Hp.
-      destruct (line_read raw (x_in x)) as [[[cs f] r] n]. cbn [fst].
+    - cbn [op_read line_ops]. unfold line_read. rewrite Hnl.
+      pose proof (line_read_pops raw (x_in x)) as Hp.
+      destruct (line_read_nl raw (x_in x)) as [[[cs f] r] n]. cbn [fst].
       destruct Hx as [H1 H2]. split; [|exact H2]. cbn. eapply pops_trans; eassumption.
     - cbn [op_slurp line_ops]. pose proof (line_slurp_pops (x_in x)) as Hp.
       destruct (line_slurp (x_in x)) as [[ct r] n]. cbn [fst].
@@ -171,35 +176,61 @@ Section Aligned.
     - apply x_ok_with_status. now apply x_ok_emit_here.
     - exact Hx.
     - exact Hx.
+    - exact Hx.
     - destruct n; exact Hx.
-    - specialize (IHc1 x Hx). destruct (exec line_ops c1 x) as [x1 e]. cbn [fst] in IHc1.
+    - specialize (IHc1 x ltac:(assumption) Hx). destruct (exec line_ops c1 x) as [x1 e]. cbn [fst] in IHc1.
       destruct e; [exact IHc1 | now apply IHc2].
-    - specialize (IHc1 x Hx). destruct (exec line_ops c1 x) as [x1 e]. cbn [fst] in IHc1.
+    - specialize (IHc1 x ltac:(assumption) Hx). destruct (exec line_ops c1 x) as [x1 e]. cbn [fst] in IHc1.
       destruct e; [exact IHc1|]. destruct (N.eqb (x_status x1) 0); [now apply IHc2 | exact IHc1].
-    - specialize (IHc1 x Hx). destruct (exec line_ops c1 x) as [x1 e]. cbn [fst] in IHc1.
+    - specialize (IHc1 x ltac:(assumption) Hx). destruct (exec line_ops c1 x) as [x1 e]. cbn [fst] in IHc1.
       destruct e; [exact IHc1|]. destruct (N.eqb (x_status x1) 0); [exact IHc1 | now apply IHc2].
-    - specialize (IHc x Hx). destruct (exec line_ops c x) as [x1 e]. cbn [fst] in IHc.
+    - specialize (IHc x Hnl Hx). destruct (exec line_ops c x) as [x1 e]. cbn [fst] in IHc.
       destruct e; exact IHc.
-    - specialize (IHc1 x Hx). destruct (exec line_ops c1 x) as [x1 e]. cbn [fst] in IHc1.
+    - specialize (IHc1 x ltac:(assumption) Hx). destruct (exec line_ops c1 x) as [x1 e]. cbn [fst] in IHc1.
       destruct e; [exact IHc1|]. destruct (N.eqb (x_status x1) 0); [now apply IHc2 | now apply IHc3].
-    - specialize (IHc x Hx). destruct (exec line_ops c x) as [x1 e]. cbn [fst] in IHc.
+    - specialize (IHc x Hnl Hx). destruct (exec line_ops c x) as [x1 e]. cbn [fst] in IHc.
       exact IHc.
   Qed.
 
-  Lemma pull_loop_ok (fuel : nat) : forall st fed src i off eof,
+  (* a command returned by the parse phase is one the parser produced *)
+  Lemma pull_loop_result (fuel : nat) : forall sts fed src i off eof c p rest,
+    pull_loop line_ops parser fuel sts fed src i off eof = (PhDone (PComplete c p), rest) ->
+    nl_cmd c = true.
+  Proof.
+    induction fuel as [|f IH]; intros sts fed src i off eof c p rest H; cbn [pull_loop] in H; [discriminate|].
+    destruct (if eof then ([], src, i, 0) else op_pull line_ops src i) as [[[l s'] i'] n].
+    destruct (parser sts (fed ++ [l])) eqn:Ep.
+    - destruct (eof || match l with [] => true | _ :: _ => false end); [discriminate|].
+      eapply IH; exact H.
+    - inversion H; subst. eapply parser_reads_lines; exact Ep.
+    - discriminate.
+    - discriminate.
+    - discriminate.
+  Qed.
+
+  Lemma pull_loop_ok (fuel : nat) : forall sts fed src i off eof,
     at_boundary i off ->
-    let '(_, (_, i', off', _)) := pull_loop line_ops parser fuel st fed src i off eof in
+    let '(_, (_, _, i', off', _)) := pull_loop line_ops parser fuel sts fed src i off eof in
     at_boundary i' off'.
   Proof.
-    induction fuel as [|f IH]; intros st fed src i off eof H; cbn [pull_loop]; [exact H|].
+    induction fuel as [|f IH]; intros sts fed src i off eof H; cbn [pull_loop]; [exact H|].
     destruct eof.
-    - cbn [orb]. rewrite N.add_0_r. destruct (parser st (fed ++ [[]])); exact H.
+    - cbn [orb]. rewrite N.add_0_r. destruct (parser sts (fed ++ [[]])); exact H.
     - cbn [op_pull line_ops]. pose proof (line_pull_pops src i) as Hp.
       destruct (line_pull src i) as [[[l s'] i'] n].
       assert (H' : at_boundary i' (off + n)) by (eapply pops_trans; eassumption).
       cbn [orb]. destruct l as [|b l].
-      + destruct (parser st (fed ++ [[]])); exact H'.
-      + destruct (parser st (fed ++ [b :: l])); try exact H'. apply IH. exact H'.
+      + destruct (parser sts (fed ++ [[]])); exact H'.
+      + destruct (parser sts (fed ++ [b :: l])); try exact H'. apply IH. exact H'.
+  Qed.
+
+  Lemma parse_phase_ok (pf : nat) sts pend fed src i off eof :
+    at_boundary i off ->
+    let '(_, (_, _, i', off', _)) := parse_phase line_ops parser pf sts pend fed src i off eof in
+    at_boundary i' off'.
+  Proof.
+    intros H. unfold parse_phase. destruct pend; [|now apply pull_loop_ok].
+    destruct (parser sts fed); try exact H. now apply pull_loop_ok.
   Qed.
 
   Definition f_ok (r : final) : Prop := is_boundary (f_off r) /\ Forall ev_ok (f_evs r).
@@ -215,13 +246,20 @@ Section Aligned.
     end.
   Proof.
     intros [H1 H2]. unfold iter.
-    pose proof (pull_loop_ok pf (s_ps (x_sh (m_x m))) [] (m_src m) _ _ (m_eof m) H1) as Hp.
-    destruct (pull_loop line_ops parser pf (s_ps (x_sh (m_x m))) [] (m_src m) (x_in (m_x m))
-                (x_off (m_x m)) (m_eof m)) as [ph [[[s' i'] off'] eof']].
+    set (sts := (if m_pend m then m_hist m else []) ++ [s_ps (x_sh (m_x m))]).
+    pose proof (parse_phase_ok pf sts (m_pend m) (m_fed m) (m_src m) _ _ (m_eof m) H1) as Hp.
+    destruct (parse_phase line_ops parser pf sts (m_pend m) (m_fed m) (m_src m) (x_in (m_x m))
+                (x_off (m_x m)) (m_eof m)) as [ph [[[[g' s'] i'] off'] eof']] eqn:Eph.
     assert (Hx : x_ok (mkX (x_sh (m_x m)) i' off' (x_evs (m_x m)))) by (split; assumption).
     destruct ph as [r| |]; try (now apply finish_ok).
     destruct r; try (now apply finish_ok).
-    pose proof (exec_ok c _ Hx) as Hc.
+    assert (Hnl : nl_cmd c = true).
+    { unfold parse_phase in Eph. destruct (m_pend m).
+      - destruct (parser sts (m_fed m)) eqn:Ep;
+          try (inversion Eph; subst; eapply parser_reads_lines; exact Ep).
+        eapply pull_loop_result; exact Eph.
+      - eapply pull_loop_result; exact Eph. }
+    pose proof (exec_ok c _ Hnl Hx) as Hc.
     destruct (exec line_ops c _) as [x2 ex]. cbn [fst] in Hc.
     destruct ex; [now apply finish_ok | exact Hc].
   Qed.
@@ -234,10 +272,11 @@ Section Aligned.
   Qed.
 End Aligned.
 
-Lemma run_ok parser fuel src (L0 : list line) :
-  f_ok L0 (run line_ops parser fuel src L0).
+Lemma run_ok parser fuel pf src (L0 : list line) :
+  reads_lines parser ->
+  f_ok L0 (run line_ops parser fuel pf src L0).
 Proof.
-  unfold run. apply loop_ok. split; [apply pops_refl | constructor].
+  intros Hrl. unfold run. apply loop_ok; [exact Hrl|]. split; [apply pops_refl | constructor].
 Qed.
 
 Lemma mem_boundaries_from (ls : list line) : forall p j,
@@ -267,92 +306,221 @@ Proof.
 Qed.
 
 (* ------------------------------------------------------------------ *)
+(* Well-formed inputs: exactly the lists of lines of some byte string. *)
+
+Definition wf (i : list line) : Prop := split_lines (concat i) = i.
+
+Lemma wf_split (x : list N) : wf (split_lines x).
+Proof. unfold wf. now rewrite concat_split_lines. Qed.
+
+Lemma wf_nil : wf [].
+Proof. reflexivity. Qed.
+
+Lemma wf_no_empty (i : list line) : wf i -> no_empty i.
+Proof. intros H. rewrite <- H. apply split_lines_no_empty. Qed.
+
+(* a suffix of the lines of x is the list of lines of its concatenation *)
+Lemma split_lines_skipn (j : nat) : forall x,
+  split_lines (concat (skipn j (split_lines x))) = skipn j (split_lines x).
+Proof.
+  induction j as [|j IH]; intros x.
+  - cbn [skipn]. now rewrite concat_split_lines.
+  - destruct x as [|b x]; [reflexivity|].
+    rewrite (split_lines_first (b :: x)).
+    destruct (first_line (b :: x)) as [[l r] f]. cbn [skipn]. apply IH.
+Qed.
+
+Lemma wf_skipn (j : nat) (i : list line) : wf i -> wf (skipn j i).
+Proof. intros H. unfold wf. rewrite <- H. apply split_lines_skipn. Qed.
+
+Lemma split_lines_cons_len (b : N) (y : list N) :
+  (length (split_lines y) <= length (split_lines (b :: y)))%nat.
+Proof.
+  cbn [split_lines]. destruct (N.eqb b NL); cbn [length]; [lia|].
+  destruct (split_lines y); cbn [length]; lia.
+Qed.
+
+Lemma split_lines_suffix_len (p r : list N) :
+  (length (split_lines r) <= length (split_lines (p ++ r)))%nat.
+Proof.
+  induction p as [|b p IH]; cbn [app]; [lia|].
+  pose proof (split_lines_cons_len b (p ++ r)). lia.
+Qed.
+
+Lemma flat_read_suffix (raw : bool) (d : N) : forall x esc,
+  let '(_, _, rest, _) := flat_read raw d esc x in exists p, x = p ++ rest.
+Proof.
+  induction x as [|b r IH]; intros esc; cbn [flat_read]; [exists []; reflexivity|].
+  destruct esc.
+  - specialize (IH false). destruct (flat_read raw d false r) as [[[cs f] rest] m].
+    destruct IH as [p ->]. destruct (N.eqb b NL); exists (b :: p); reflexivity.
+  - destruct (N.eqb b d); [exists [b]; reflexivity|]. destruct (negb raw && N.eqb b BSL).
+    + specialize (IH true). destruct (flat_read raw d true r) as [[[cs f] rest] m].
+      destruct IH as [p ->]. exists (b :: p); reflexivity.
+    + specialize (IH false). destruct (flat_read raw d false r) as [[[cs f] rest] m].
+      destruct IH as [p ->]. exists (b :: p); reflexivity.
+Qed.
+
+Lemma Forall_skipn {A} (P : A -> Prop) (j : nat) : forall l, Forall P l -> Forall P (skipn j l).
+Proof.
+  induction j as [|j IH]; intros l H; [exact H|]. destruct l; [constructor|].
+  inversion H; subst. cbn [skipn]. now apply IH.
+Qed.
+
+Lemma pops_wf i rest n : pops i rest n -> wf i -> wf rest.
+Proof. intros [j [-> _]]. apply wf_skipn. Qed.
+
+Lemma line_read_wf (raw : bool) (d : N) (i : list line) :
+  wf i ->
+  let '(_, _, rest, _) := line_read raw d i in
+  wf rest /\ (length rest <= length i)%nat.
+Proof.
+  intros Hwf. unfold line_read. destruct (N.eqb d NL).
+  - pose proof (line_read_pops raw i) as Hp.
+    destruct (line_read_nl raw i) as [[[cs f] r] n].
+    split; [eapply pops_wf; eassumption | eapply pops_length; eassumption].
+  - pose proof (flat_read_suffix raw d (concat i) false) as Hs.
+    destruct (flat_read raw d false (concat i)) as [[[cs f] rest] m].
+    destruct Hs as [p Hp]. split; [apply wf_split|].
+    assert (E : length i = length (split_lines (concat i))) by (unfold wf in Hwf; now rewrite Hwf).
+    rewrite E, Hp. apply split_lines_suffix_len.
+Qed.
+
+(* ------------------------------------------------------------------ *)
 (* The input never grows.                                              *)
 
 Section Lengths.
-  Context (parser : pstate -> list line -> pres).
+  Context (parser : list pstate -> list line -> pres).
 
-  Lemma exec_pops (c : cmd) : forall x,
+  (* whatever the delimiters: well-formedness is kept, the number of lines
+     does not grow *)
+  Lemma exec_wf (c : cmd) : forall x, wf (x_in x) ->
+    wf (x_in (fst (exec line_ops c x))) /\
+    (length (x_in (fst (exec line_ops c x))) <= length (x_in x))%nat.
+  Proof.
+    induction c; intros x Hwf; cbn [exec]; try (cbn; split; [exact Hwf | lia]).
+    - cbn [op_read line_ops]. pose proof (line_read_wf raw d (x_in x) Hwf) as Hp.
+      destruct (line_read raw d (x_in x)) as [[[cs f] r] n]. exact Hp.
+    - cbn [op_slurp line_ops]. unfold line_slurp. cbn. split; [apply wf_nil | lia].
+    - destruct n; cbn; (split; [exact Hwf | lia]).
+    - destruct (IHc1 x Hwf) as [H1 L1]. destruct (exec line_ops c1 x) as [x1 e]. cbn [fst] in *.
+      destruct e; [split; assumption|]. destruct (IHc2 x1 H1) as [H2 L2]. split; [assumption | lia].
+    - destruct (IHc1 x Hwf) as [H1 L1]. destruct (exec line_ops c1 x) as [x1 e]. cbn [fst] in *.
+      destruct e; [split; assumption|]. destruct (N.eqb (x_status x1) 0); [|split; assumption].
+      destruct (IHc2 x1 H1) as [H2 L2]. split; [assumption | lia].
+    - destruct (IHc1 x Hwf) as [H1 L1]. destruct (exec line_ops c1 x) as [x1 e]. cbn [fst] in *.
+      destruct e; [split; assumption|]. destruct (N.eqb (x_status x1) 0); [split; assumption|].
+      destruct (IHc2 x1 H1) as [H2 L2]. split; [assumption | lia].
+    - destruct (IHc x Hwf) as [H1 L1]. destruct (exec line_ops c x) as [x1 e]. cbn [fst] in *.
+      destruct e; split; assumption.
+    - destruct (IHc1 x Hwf) as [H1 L1]. destruct (exec line_ops c1 x) as [x1 e]. cbn [fst] in *.
+      destruct e; [split; assumption|]. destruct (N.eqb (x_status x1) 0).
+      + destruct (IHc2 x1 H1) as [H2 L2]. split; [assumption | lia].
+      + destruct (IHc3 x1 H1) as [H2 L2]. split; [assumption | lia].
+    - destruct (IHc x Hwf) as [H1 L1]. destruct (exec line_ops c x) as [x1 e]. cbn [fst] in *.
+      split; assumption.
+  Qed.
+
+  (* reads of whole lines only: the input is a suffix (in lines) of what it was *)
+  Lemma exec_pops (c : cmd) : forall x, nl_cmd c = true ->
     exists n, pops (x_in x) (x_in (fst (exec line_ops c x))) n.
   Proof.
-    induction c; intros x; cbn [exec]; try (exists 0; apply pops_refl).
-    - cbn [op_read line_ops]. pose proof (line_read_pops raw (x_in x)) as Hp.
-      destruct (line_read raw (x_in x)) as [[[cs f] r] n]. exists n. exact Hp.
+    induction c; intros x Hnl; cbn [exec]; cbn [nl_cmd] in Hnl;
+      repeat match goal with H : _ && _ = true |- _ => apply andb_true_iff in H; destruct H end;
+      try (exists 0; apply pops_refl).
+    - cbn [op_read line_ops]. unfold line_read. rewrite Hnl.
+      pose proof (line_read_pops raw (x_in x)) as Hp.
+      destruct (line_read_nl raw (x_in x)) as [[[cs f] r] n]. exists n. exact Hp.
     - cbn [op_slurp line_ops]. pose proof (line_slurp_pops (x_in x)) as Hp.
       destruct (line_slurp (x_in x)) as [[ct r] n]. exists n. exact Hp.
     - destruct n; exists 0; apply pops_refl.
-    - destruct (IHc1 x) as [n1 H1]. destruct (exec line_ops c1 x) as [x1 e]. cbn [fst] in H1.
-      destruct e; [exists n1; exact H1|]. destruct (IHc2 x1) as [n2 H2].
+    - destruct (IHc1 x ltac:(assumption)) as [n1 P1]. destruct (exec line_ops c1 x) as [x1 e]. cbn [fst] in P1.
+      destruct e; [exists n1; exact P1|]. destruct (IHc2 x1 ltac:(assumption)) as [n2 P2].
       exists (n1 + n2). eapply pops_trans; eassumption.
-    - destruct (IHc1 x) as [n1 H1]. destruct (exec line_ops c1 x) as [x1 e]. cbn [fst] in H1.
-      destruct e; [exists n1; exact H1|]. destruct (N.eqb (x_status x1) 0); [|exists n1; exact H1].
-      destruct (IHc2 x1) as [n2 H2]. exists (n1 + n2). eapply pops_trans; eassumption.
-    - destruct (IHc1 x) as [n1 H1]. destruct (exec line_ops c1 x) as [x1 e]. cbn [fst] in H1.
-      destruct e; [exists n1; exact H1|]. destruct (N.eqb (x_status x1) 0); [exists n1; exact H1|].
-      destruct (IHc2 x1) as [n2 H2]. exists (n1 + n2). eapply pops_trans; eassumption.
-    - destruct (IHc x) as [n1 H1]. destruct (exec line_ops c x) as [x1 e]. cbn [fst] in H1.
-      destruct e; exists n1; exact H1.
-    - destruct (IHc1 x) as [n1 H1]. destruct (exec line_ops c1 x) as [x1 e]. cbn [fst] in H1.
-      destruct e; [exists n1; exact H1|]. destruct (N.eqb (x_status x1) 0).
-      + destruct (IHc2 x1) as [n2 H2]. exists (n1 + n2). eapply pops_trans; eassumption.
-      + destruct (IHc3 x1) as [n2 H2]. exists (n1 + n2). eapply pops_trans; eassumption.
-    - destruct (IHc x) as [n1 H1]. destruct (exec line_ops c x) as [x1 e]. cbn [fst] in H1.
-      exists n1. exact H1.
+    - destruct (IHc1 x ltac:(assumption)) as [n1 P1]. destruct (exec line_ops c1 x) as [x1 e]. cbn [fst] in P1.
+      destruct e; [exists n1; exact P1|]. destruct (N.eqb (x_status x1) 0); [|exists n1; exact P1].
+      destruct (IHc2 x1 ltac:(assumption)) as [n2 P2]. exists (n1 + n2). eapply pops_trans; eassumption.
+    - destruct (IHc1 x ltac:(assumption)) as [n1 P1]. destruct (exec line_ops c1 x) as [x1 e]. cbn [fst] in P1.
+      destruct e; [exists n1; exact P1|]. destruct (N.eqb (x_status x1) 0); [exists n1; exact P1|].
+      destruct (IHc2 x1 ltac:(assumption)) as [n2 P2]. exists (n1 + n2). eapply pops_trans; eassumption.
+    - destruct (IHc x Hnl) as [n1 P1]. destruct (exec line_ops c x) as [x1 e]. cbn [fst] in P1.
+      destruct e; exists n1; exact P1.
+    - destruct (IHc1 x ltac:(assumption)) as [n1 P1]. destruct (exec line_ops c1 x) as [x1 e]. cbn [fst] in P1.
+      destruct e; [exists n1; exact P1|]. destruct (N.eqb (x_status x1) 0).
+      + destruct (IHc2 x1 ltac:(assumption)) as [n2 P2]. exists (n1 + n2). eapply pops_trans; eassumption.
+      + destruct (IHc3 x1 ltac:(assumption)) as [n2 P2]. exists (n1 + n2). eapply pops_trans; eassumption.
+    - destruct (IHc x Hnl) as [n1 P1]. destruct (exec line_ops c x) as [x1 e]. cbn [fst] in P1.
+      exists n1. exact P1.
   Qed.
 
-  Lemma exec_len (c : cmd) (x : xstate) :
+  Lemma exec_len (c : cmd) (x : xstate) : nl_cmd c = true ->
     (length (x_in (fst (exec line_ops c x))) <= length (x_in x))%nat.
-  Proof. destruct (exec_pops c x) as [n H]. eapply pops_length; exact H. Qed.
+  Proof. intros Hnl. destruct (exec_pops c x Hnl) as [n H]. eapply pops_length; exact H. Qed.
 
-  Lemma pull_loop_len (fuel : nat) : forall st fed src i off eof,
-    let '(_, (_, i', _, _)) := pull_loop line_ops parser fuel st fed src i off eof in
-    (length i' <= length i)%nat.
+  Lemma pull_loop_pops (fuel : nat) : forall sts fed src i off eof,
+    let '(_, (_, _, i', _, _)) := pull_loop line_ops parser fuel sts fed src i off eof in
+    exists j, i' = skipn j i.
   Proof.
-    induction fuel as [|f IH]; intros st fed src i off eof; cbn [pull_loop]; [lia|].
+    induction fuel as [|f IH]; intros sts fed src i off eof; cbn [pull_loop]; [exists 0%nat; reflexivity|].
     destruct eof.
-    - cbn [orb]. destruct (parser st (fed ++ [[]])); lia.
+    - cbn [orb]. destruct (parser sts (fed ++ [[]])); exists 0%nat; reflexivity.
     - cbn [op_pull line_ops]. pose proof (line_pull_pops src i) as Hp.
-      destruct (line_pull src i) as [[[l s'] i'] n]. apply pops_length in Hp.
+      destruct (line_pull src i) as [[[l s'] i'] n]. destruct Hp as [j [Hj _]].
       cbn [orb]. destruct l as [|b l].
-      + destruct (parser st (fed ++ [[]])); exact Hp.
-      + destruct (parser st (fed ++ [b :: l])); try exact Hp.
-        specialize (IH st (fed ++ [b :: l]) s' i' (off + n) false).
-        destruct (pull_loop line_ops parser f st (fed ++ [b :: l]) s' i' (off + n) false)
-          as [ph [[[s2 i2] o2] e2]]. lia.
+      + destruct (parser sts (fed ++ [[]])); exists j; exact Hj.
+      + destruct (parser sts (fed ++ [b :: l])); try (exists j; exact Hj).
+        specialize (IH sts (fed ++ [b :: l]) s' i' (off + n) false).
+        destruct (pull_loop line_ops parser f sts (fed ++ [b :: l]) s' i' (off + n) false)
+          as [ph [[[[g2 s2] i2] o2] e2]]. destruct IH as [k Hk]. exists (j + k)%nat.
+        rewrite Hk, Hj. apply skipn_add.
   Qed.
 
-  Lemma iter_len (pf : nat) (m m' : mstate) :
-    iter line_ops parser pf m = inl m' ->
-    (length (x_in (m_x m')) <= length (x_in (m_x m)))%nat.
+  Lemma parse_phase_pops (pf : nat) sts pend fed src i off eof :
+    let '(_, (_, _, i', _, _)) := parse_phase line_ops parser pf sts pend fed src i off eof in
+    exists j, i' = skipn j i.
   Proof.
-    unfold iter.
-    pose proof (pull_loop_len pf (s_ps (x_sh (m_x m))) [] (m_src m) (x_in (m_x m))
-                  (x_off (m_x m)) (m_eof m)) as Hp.
-    destruct (pull_loop line_ops parser pf (s_ps (x_sh (m_x m))) [] (m_src m) (x_in (m_x m))
-                (x_off (m_x m)) (m_eof m)) as [ph [[[s' i'] off'] eof']].
-    destruct ph as [r| |]; try discriminate. destruct r; try discriminate.
-    pose proof (exec_len c (mkX (x_sh (m_x m)) i' off' (x_evs (m_x m)))) as Hc.
-    destruct (exec line_ops c _) as [x2 ex]. cbn [fst x_in] in Hc.
-    destruct ex; [discriminate|]. intros H. inversion H; subst. cbn. lia.
+    unfold parse_phase. destruct pend; [|apply pull_loop_pops].
+    destruct (parser sts fed); try (exists 0%nat; reflexivity). apply pull_loop_pops.
   Qed.
 
-  Lemma iter_n_len (n pf : nat) : forall m m',
-    iter_n line_ops parser n pf m = inl m' ->
-    (length (x_in (m_x m')) <= length (x_in (m_x m)))%nat.
-  Proof.
-    induction n as [|k IH]; intros m m' H; cbn [iter_n] in H.
-    - inversion H; subst. lia.
-    - destruct (iter line_ops parser pf m) as [m1|r] eqn:E; [|discriminate].
-      apply iter_len in E. apply IH in H. lia.
-  Qed.
+  Lemma skipn_len {A} (j : nat) (l : list A) : (length (skipn j l) <= length l)%nat.
+  Proof. rewrite skipn_length. lia. Qed.
 End Lengths.
+
+(* a command returned by the parse phase is one the parser produced *)
+Section FromParser.
+  Context {I SRC : Type} (ops : input_ops I SRC) (parser : list pstate -> list line -> pres).
+
+  Lemma pull_loop_from_parser (fuel : nat) : forall sts fed src i off eof c p rest,
+    pull_loop ops parser fuel sts fed src i off eof = (PhDone (PComplete c p), rest) ->
+    exists fed', parser sts fed' = PComplete c p.
+  Proof.
+    induction fuel as [|f IH]; intros sts fed src i off eof c p rest H; cbn [pull_loop] in H; [discriminate|].
+    destruct (if eof then ([], src, i, 0) else op_pull ops src i) as [[[l s'] i'] n].
+    destruct (parser sts (fed ++ [l])) eqn:Ep; try discriminate.
+    - destruct (eof || match l with [] => true | _ :: _ => false end); [discriminate|].
+      eapply IH; exact H.
+    - inversion H; subst. eexists; exact Ep.
+  Qed.
+
+  Lemma parse_phase_from_parser pf sts pend fed src i off eof c p rest :
+    parse_phase ops parser pf sts pend fed src i off eof = (PhDone (PComplete c p), rest) ->
+    exists fed', parser sts fed' = PComplete c p.
+  Proof.
+    unfold parse_phase. destruct pend; [|apply pull_loop_from_parser].
+    destruct (parser sts fed) eqn:Ep; try discriminate.
+    - apply pull_loop_from_parser.
+    - intros H; inversion H; subst. eexists; exact Ep.
+  Qed.
+End FromParser.
 
 (* ------------------------------------------------------------------ *)
 (* Prefix independence: what is done while the input still ends with LB
    does not depend on LB.                                              *)
 
 Section Swap.
-  Context (parser : pstate -> list line -> pres) (LB LB' : list line).
+  Context (parser : list pstate -> list line -> pres) (LB LB' : list line).
+  Hypothesis parser_reads_lines : reads_lines parser.
   Hypothesis LB_nonempty : LB <> [].
 
   Definition swap (X X' : list line) : Prop := exists Y, X = Y ++ LB /\ X' = Y ++ LB'.
@@ -363,29 +531,29 @@ Section Swap.
   Proof. destruct LB; [contradiction | cbn; lia]. Qed.
 
   Lemma line_read_shrinks (raw : bool) (l : line) (i : list line) :
-    let '(_, _, r, _) := line_read raw (l :: i) in (length r <= length i)%nat.
+    let '(_, _, r, _) := line_read_nl raw (l :: i) in (length r <= length i)%nat.
   Proof.
     pose proof (line_read_pops raw i) as Hp.
-    cbn [line_read]. destruct (scan_line raw l) as [cs e]. destruct e; try lia.
-    destruct (line_read raw i) as [[[cs' f] r] n]. eapply pops_length; exact Hp.
+    cbn [line_read_nl]. destruct (scan_line raw l) as [cs e]. destruct e; try lia.
+    destruct (line_read_nl raw i) as [[[cs' f] r] n]. eapply pops_length; exact Hp.
   Qed.
 
   Lemma read_swap (raw : bool) : forall X X', swap X X' ->
-    let '(c, f, r, n) := line_read raw X in
-    let '(c', f', r', n') := line_read raw X' in
+    let '(c, f, r, n) := line_read_nl raw X in
+    let '(c', f', r', n') := line_read_nl raw X' in
     keeps r -> c = c' /\ f = f' /\ n = n' /\ swap r r'.
   Proof.
     intros X X' [Y [-> ->]]. induction Y as [|y Y IH]; cbn [app].
     - pose proof LB_pos as Hpos. destruct LB as [|l rest] eqn:ELB; [contradiction|].
       pose proof (line_read_shrinks raw l rest) as Hs.
-      destruct (line_read raw (l :: rest)) as [[[c f] r] n].
-      destruct (line_read raw LB') as [[[c' f'] r'] n'].
+      destruct (line_read_nl raw (l :: rest)) as [[[c f] r] n].
+      destruct (line_read_nl raw LB') as [[[c' f'] r'] n'].
       unfold keeps. rewrite ELB. cbn [length]. lia.
-    - cbn [line_read]. destruct (scan_line raw y) as [cs e]. destruct e.
+    - cbn [line_read_nl]. destruct (scan_line raw y) as [cs e]. destruct e.
       + intros _. repeat split. now exists Y.
       + intros _. repeat split. now exists Y.
-      + destruct (line_read raw (Y ++ LB)) as [[[c f] r] n].
-        destruct (line_read raw (Y ++ LB')) as [[[c' f'] r'] n'].
+      + destruct (line_read_nl raw (Y ++ LB)) as [[[c f] r] n].
+        destruct (line_read_nl raw (Y ++ LB')) as [[[c' f'] r'] n'].
         intros Hk. destruct (IH Hk) as [-> [-> [-> Hsw]]]. repeat split. exact Hsw.
   Qed.
 
@@ -407,12 +575,13 @@ Section Swap.
     unfold emit. repeat split; cbn; try assumption. now rewrite H3, Hs.
   Qed.
 
-  Lemma exec_swap (c : cmd) : forall x x', SX x x' ->
+  Lemma exec_swap (c : cmd) : forall x x', nl_cmd c = true -> SX x x' ->
     keeps (x_in (fst (exec line_ops c x))) ->
     SX (fst (exec line_ops c x)) (fst (exec line_ops c x')) /\
     snd (exec line_ops c x) = snd (exec line_ops c x').
   Proof.
-    induction c; intros x x' HS; cbn [exec].
+    induction c; intros x x' Hnl HS; cbn [exec]; cbn [nl_cmd] in Hnl;
+      repeat match goal with H : _ && _ = true |- _ => apply andb_true_iff in H; destruct H as [? ?] end.
     - intros _. split; [assumption | reflexivity].
     - intros _. split; [now apply SX_with_status | reflexivity].
     - intros _. destruct HS as [H1 [H2 [H3 H4]]] eqn:E. clear E.
@@ -421,10 +590,10 @@ Section Swap.
     - intros _. destruct HS as [H1 [H2 [H3 H4]]] eqn:E. clear E.
       split; [|reflexivity]. apply SX_with_status. rewrite H1, H2. apply SX_emit.
       repeat split; assumption.
-    - destruct HS as [H1 [H2 [H3 H4]]]. cbn [op_read line_ops].
+    - destruct HS as [H1 [H2 [H3 H4]]]. cbn [op_read line_ops]. unfold line_read. rewrite Hnl.
       pose proof (read_swap raw _ _ H4) as Hr.
-      destruct (line_read raw (x_in x)) as [[[c1 f1] j1] n1].
-      destruct (line_read raw (x_in x')) as [[[c2 f2] j2] n2].
+      destruct (line_read_nl raw (x_in x)) as [[[c1 f1] j1] n1].
+      destruct (line_read_nl raw (x_in x')) as [[[c2 f2] j2] n2].
       cbn [x_in fst snd]. intros Hk. destruct (Hr Hk) as [-> [-> [-> Hj]]]. rewrite H1, H2, H3.
       split; [|reflexivity]. repeat split; assumption.
     - cbn [op_slurp line_ops]. unfold line_slurp. cbn [x_in with_status fst].
@@ -434,16 +603,20 @@ Section Swap.
       split; [|reflexivity]. repeat split; assumption.
     - intros _. destruct HS as [H1 [H2 [H3 H4]]]. rewrite H1, H2, H3.
       split; [|reflexivity]. repeat split; assumption.
+    - intros _. destruct HS as [H1 [H2 [H3 H4]]]. rewrite H1, H2, H3.
+      split; [|reflexivity]. repeat split; assumption.
     - destruct n; intros _; (split; [|reflexivity]); [now apply SX_with_status | assumption].
     - (* CSeq *)
-      specialize (IHc1 _ _ HS). pose proof (exec_len c2 (fst (exec line_ops c1 x))) as Hl.
+      specialize (IHc1 _ _ ltac:(assumption) HS).
+      pose proof (exec_len c2 (fst (exec line_ops c1 x)) ltac:(assumption)) as Hl.
       destruct (exec line_ops c1 x) as [y1 e1]. destruct (exec line_ops c1 x') as [y2 e2].
       cbn [fst snd] in *. destruct e1.
       + cbn [fst snd]. intros Hk. destruct (IHc1 Hk) as [Hy <-]. split; [assumption|reflexivity].
       + intros Hk. assert (Hk1 : keeps (x_in y1)) by (unfold keeps in *; lia).
         destruct (IHc1 Hk1) as [Hy <-]. now apply IHc2.
     - (* CAnd *)
-      specialize (IHc1 _ _ HS). pose proof (exec_len c2 (fst (exec line_ops c1 x))) as Hl.
+      specialize (IHc1 _ _ ltac:(assumption) HS).
+      pose proof (exec_len c2 (fst (exec line_ops c1 x)) ltac:(assumption)) as Hl.
       destruct (exec line_ops c1 x) as [y1 e1]. destruct (exec line_ops c1 x') as [y2 e2].
       cbn [fst snd] in *. destruct e1.
       + cbn [fst snd]. intros Hk. destruct (IHc1 Hk) as [Hy <-]. split; [assumption|reflexivity].
@@ -453,7 +626,8 @@ Section Swap.
         * cbn [fst snd]. intros Hk. destruct (IHc1 Hk) as [Hy <-].
           rewrite <- (SX_status _ _ Hy), Est. split; [assumption|reflexivity].
     - (* COr *)
-      specialize (IHc1 _ _ HS). pose proof (exec_len c2 (fst (exec line_ops c1 x))) as Hl.
+      specialize (IHc1 _ _ ltac:(assumption) HS).
+      pose proof (exec_len c2 (fst (exec line_ops c1 x)) ltac:(assumption)) as Hl.
       destruct (exec line_ops c1 x) as [y1 e1]. destruct (exec line_ops c1 x') as [y2 e2].
       cbn [fst snd] in *. destruct e1.
       + cbn [fst snd]. intros Hk. destruct (IHc1 Hk) as [Hy <-]. split; [assumption|reflexivity].
@@ -463,15 +637,16 @@ Section Swap.
         * intros Hk. assert (Hk1 : keeps (x_in y1)) by (unfold keeps in *; lia).
           destruct (IHc1 Hk1) as [Hy <-]. rewrite <- (SX_status _ _ Hy), Est. now apply IHc2.
     - (* CNot *)
-      specialize (IHc _ _ HS).
+      specialize (IHc _ _ Hnl HS).
       destruct (exec line_ops c x) as [y1 e1]. destruct (exec line_ops c x') as [y2 e2].
       cbn [fst snd] in *. destruct e1.
       + cbn [fst snd]. intros Hk. destruct (IHc Hk) as [Hy <-]. split; [assumption|reflexivity].
       + cbn [x_in with_status fst snd]. intros Hk. destruct (IHc Hk) as [Hy <-].
         rewrite (SX_status _ _ Hy). split; [now apply SX_with_status | reflexivity].
     - (* CIf *)
-      specialize (IHc1 _ _ HS). pose proof (exec_len c2 (fst (exec line_ops c1 x))) as Hl2.
-      pose proof (exec_len c3 (fst (exec line_ops c1 x))) as Hl3.
+      specialize (IHc1 _ _ ltac:(assumption) HS).
+      pose proof (exec_len c2 (fst (exec line_ops c1 x)) ltac:(assumption)) as Hl2.
+      pose proof (exec_len c3 (fst (exec line_ops c1 x)) ltac:(assumption)) as Hl3.
       destruct (exec line_ops c1 x) as [y1 e1]. destruct (exec line_ops c1 x') as [y2 e2].
       cbn [fst snd] in *. destruct e1.
       + cbn [fst snd]. intros Hk. destruct (IHc1 Hk) as [Hy <-]. split; [assumption|reflexivity].
@@ -481,7 +656,7 @@ Section Swap.
         * intros Hk. assert (Hk1 : keeps (x_in y1)) by (unfold keeps in *; lia).
           destruct (IHc1 Hk1) as [Hy <-]. rewrite <- (SX_status _ _ Hy), Est. now apply IHc3.
     - (* CSub *)
-      specialize (IHc _ _ HS).
+      specialize (IHc _ _ Hnl HS).
       destruct (exec line_ops c x) as [y1 e1]. destruct (exec line_ops c x') as [y2 e2].
       cbn [x_in fst snd] in *. intros Hk. destruct (IHc Hk) as [Hy _].
       pose proof (SX_status _ _ Hy) as Hs.
@@ -489,81 +664,143 @@ Section Swap.
       rewrite H1, Hs. split; [|reflexivity]. repeat split; cbn; assumption.
   Qed.
 
-  Lemma pull_loop_shrinks (f : nat) st fed l rest off :
-    let '(_, (_, i', _, _)) := pull_loop line_ops parser (S f) st fed LShared (l :: rest) off false in
+  Lemma pull_loop_len (fuel : nat) sts fed src i off eof :
+    let '(_, (_, _, i', _, _)) := pull_loop line_ops parser fuel sts fed src i off eof in
+    (length i' <= length i)%nat.
+  Proof.
+    pose proof (pull_loop_pops parser fuel sts fed src i off eof) as H.
+    destruct (pull_loop line_ops parser fuel sts fed src i off eof) as [ph [[[[g s] r] o] e]].
+    destruct H as [j ->]. apply skipn_len.
+  Qed.
+
+  Lemma pull_loop_shrinks (f : nat) sts fed l rest off :
+    let '(_, (_, _, i', _, _)) := pull_loop line_ops parser (S f) sts fed LShared (l :: rest) off false in
     (length i' <= length rest)%nat.
   Proof.
     cbn [pull_loop op_pull line_ops line_pull orb]. destruct l as [|b l].
-    - destruct (parser st (fed ++ [[]])); lia.
-    - pose proof (pull_loop_len parser f st (fed ++ [b :: l]) LShared rest (off + nlen (b :: l)) false) as Hlen.
-      destruct (parser st (fed ++ [b :: l])); try lia.
-      destruct (pull_loop line_ops parser f st (fed ++ [b :: l]) LShared rest (off + nlen (b :: l)) false)
-        as [ph [[[s r] o] e]]. exact Hlen.
+    - destruct (parser sts (fed ++ [[]])); lia.
+    - pose proof (pull_loop_len f sts (fed ++ [b :: l]) LShared rest (off + nlen (b :: l)) false) as Hlen.
+      destruct (parser sts (fed ++ [b :: l])); try lia.
+      destruct (pull_loop line_ops parser f sts (fed ++ [b :: l]) LShared rest (off + nlen (b :: l)) false)
+        as [ph [[[[g s] r] o] e]]. exact Hlen.
   Qed.
 
-  Lemma pull_loop_swap (fuel : nat) : forall st fed X X' off eof, swap X X' ->
-    let '(ph, (s, r, o, e)) := pull_loop line_ops parser fuel st fed LShared X off eof in
-    let '(ph', (s', r', o', e')) := pull_loop line_ops parser fuel st fed LShared X' off eof in
-    keeps r -> ph = ph' /\ s = s' /\ o = o' /\ e = e' /\ swap r r'.
+  Lemma pull_loop_swap (fuel : nat) : forall sts fed X X' off eof, swap X X' ->
+    let '(ph, (g, s, r, o, e)) := pull_loop line_ops parser fuel sts fed LShared X off eof in
+    let '(ph', (g', s', r', o', e')) := pull_loop line_ops parser fuel sts fed LShared X' off eof in
+    keeps r -> ph = ph' /\ g = g' /\ s = s' /\ o = o' /\ e = e' /\ swap r r'.
   Proof.
-    induction fuel as [|f IH]; intros st fed X X' off eof HS.
+    induction fuel as [|f IH]; intros sts fed X X' off eof HS.
     - cbn [pull_loop]. intros _. repeat split. exact HS.
     - destruct eof.
-      + cbn [pull_loop orb]. destruct (parser st (fed ++ [[]])); intros _; repeat split; exact HS.
+      + cbn [pull_loop orb]. destruct (parser sts (fed ++ [[]])); intros _; repeat split; exact HS.
       + destruct HS as [Y [-> ->]]. destruct Y as [|y Y]; cbn [app].
         * (* the next line comes out of LB: the input becomes shorter than LB *)
           pose proof LB_pos as Hpos. destruct LB as [|l rest] eqn:ELB; [contradiction|].
-          pose proof (pull_loop_shrinks f st fed l rest off) as Hsh.
-          destruct (pull_loop line_ops parser (S f) st fed LShared (l :: rest) off false)
-            as [ph [[[s r] o] e]].
-          destruct (pull_loop line_ops parser (S f) st fed LShared LB' off false)
-            as [ph' [[[s' r'] o'] e']].
+          pose proof (pull_loop_shrinks f sts fed l rest off) as Hsh.
+          destruct (pull_loop line_ops parser (S f) sts fed LShared (l :: rest) off false)
+            as [ph [[[[g s] r] o] e]].
+          destruct (pull_loop line_ops parser (S f) sts fed LShared LB' off false)
+            as [ph' [[[[g' s'] r'] o'] e']].
           intros Hk. exfalso. unfold keeps in Hk. rewrite ELB in Hk. cbn [length] in Hk. lia.
         * cbn [pull_loop op_pull line_ops line_pull orb]. destruct y as [|b l].
-          -- destruct (parser st (fed ++ [[]])); intros _; repeat split; now exists Y.
-          -- destruct (parser st (fed ++ [b :: l])); try (intros _; repeat split; now exists Y).
+          -- destruct (parser sts (fed ++ [[]])); intros _; repeat split; now exists Y.
+          -- destruct (parser sts (fed ++ [b :: l])); try (intros _; repeat split; now exists Y).
              apply IH. now exists Y.
   Qed.
 
-  Lemma pull_loop_shared (fuel : nat) : forall st fed i off eof,
-    let '(_, (s, _, _, _)) := pull_loop line_ops parser fuel st fed LShared i off eof in
+  Lemma parse_phase_swap (pf : nat) sts pend fed X X' off eof : swap X X' ->
+    let '(ph, (g, s, r, o, e)) := parse_phase line_ops parser pf sts pend fed LShared X off eof in
+    let '(ph', (g', s', r', o', e')) := parse_phase line_ops parser pf sts pend fed LShared X' off eof in
+    keeps r -> ph = ph' /\ g = g' /\ s = s' /\ o = o' /\ e = e' /\ swap r r'.
+  Proof.
+    intros HS. unfold parse_phase. destruct pend; [|now apply pull_loop_swap].
+    destruct (parser sts fed); try (intros _; repeat split; exact HS).
+    now apply pull_loop_swap.
+  Qed.
+
+  Lemma pull_loop_shared (fuel : nat) : forall sts fed i off eof,
+    let '(_, (_, s, _, _, _)) := pull_loop line_ops parser fuel sts fed LShared i off eof in
     s = LShared.
   Proof.
-    induction fuel as [|f IH]; intros st fed i off eof; cbn [pull_loop]; [reflexivity|].
+    induction fuel as [|f IH]; intros sts fed i off eof; cbn [pull_loop]; [reflexivity|].
     destruct eof.
-    - cbn [orb]. destruct (parser st (fed ++ [[]])); reflexivity.
+    - cbn [orb]. destruct (parser sts (fed ++ [[]])); reflexivity.
     - cbn [op_pull line_ops line_pull orb]. destruct i as [|l i].
-      + destruct (parser st (fed ++ [[]])); reflexivity.
+      + destruct (parser sts (fed ++ [[]])); reflexivity.
       + destruct l as [|b l].
-        * destruct (parser st (fed ++ [[]])); reflexivity.
-        * destruct (parser st (fed ++ [b :: l])); try reflexivity. apply IH.
+        * destruct (parser sts (fed ++ [[]])); reflexivity.
+        * destruct (parser sts (fed ++ [b :: l])); try reflexivity. apply IH.
+  Qed.
+
+  Lemma parse_phase_shared pf sts pend fed i off eof :
+    let '(_, (_, s, _, _, _)) := parse_phase line_ops parser pf sts pend fed LShared i off eof in
+    s = LShared.
+  Proof.
+    unfold parse_phase. destruct pend; [|apply pull_loop_shared].
+    destruct (parser sts fed); try reflexivity. apply pull_loop_shared.
   Qed.
 
   Definition SM (m m' : mstate (I:=list line) (SRC:=lsource)) : Prop :=
-    SX (m_x m) (m_x m') /\ m_src m = LShared /\ m_src m' = LShared /\ m_eof m = m_eof m'.
+    SX (m_x m) (m_x m') /\ m_src m = LShared /\ m_src m' = LShared /\ m_eof m = m_eof m' /\
+    m_pend m = m_pend m' /\ m_fed m = m_fed m' /\ m_hist m = m_hist m'.
+
+  Lemma iter_len (pf : nat) (m m' : mstate) :
+    iter line_ops parser pf m = inl m' ->
+    (length (x_in (m_x m')) <= length (x_in (m_x m)))%nat.
+  Proof.
+    unfold iter.
+    set (sts := (if m_pend m then m_hist m else []) ++ [s_ps (x_sh (m_x m))]).
+    pose proof (parse_phase_pops parser pf sts (m_pend m) (m_fed m) (m_src m) (x_in (m_x m))
+                  (x_off (m_x m)) (m_eof m)) as Hp.
+    destruct (parse_phase line_ops parser pf sts (m_pend m) (m_fed m) (m_src m) (x_in (m_x m))
+                (x_off (m_x m)) (m_eof m)) as [ph [[[[g' s'] i'] off'] eof']] eqn:Eph.
+    destruct ph as [r| |]; try discriminate. destruct r; try discriminate.
+    destruct (parse_phase_from_parser _ _ _ _ _ _ _ _ _ _ _ _ _ Eph) as [fd Hfd].
+    pose proof (exec_len c (mkX (x_sh (m_x m)) i' off' (x_evs (m_x m)))
+                  (parser_reads_lines _ _ _ _ Hfd)) as Hc.
+    destruct (exec line_ops c _) as [x2 ex]. cbn [fst x_in] in Hc.
+    destruct ex; [discriminate|]. intros H. inversion H; subst. cbn.
+    destruct Hp as [j ->]. pose proof (skipn_len j (x_in (m_x m))). lia.
+  Qed.
+
+  Lemma iter_n_len (n pf : nat) : forall m m',
+    iter_n line_ops parser n pf m = inl m' ->
+    (length (x_in (m_x m')) <= length (x_in (m_x m)))%nat.
+  Proof.
+    induction n as [|k IH]; intros m m' H; cbn [iter_n] in H.
+    - inversion H; subst. lia.
+    - destruct (iter line_ops parser pf m) as [m1|r] eqn:E; [|discriminate].
+      apply iter_len in E. apply IH in H. lia.
+  Qed.
 
   Lemma iter_swap (pf : nat) (m m' n : mstate) :
     SM m m' -> iter line_ops parser pf m = inl n -> keeps (x_in (m_x n)) ->
     exists n', iter line_ops parser pf m' = inl n' /\ SM n n'.
   Proof.
-    intros [HX [Hs [Hs' He]]]. unfold iter. pose proof HX as [H1 [H2 [H3 H4]]].
-    pose proof (pull_loop_swap pf (s_ps (x_sh (m_x m'))) [] _ _ (x_off (m_x m')) (m_eof m') H4) as Hp.
-    rewrite Hs, Hs', H1, H2, H3, He.
-    pose proof (pull_loop_shared pf (s_ps (x_sh (m_x m'))) [] (x_in (m_x m)) (x_off (m_x m')) (m_eof m')) as Hsh.
-    destruct (pull_loop line_ops parser pf (s_ps (x_sh (m_x m'))) [] LShared (x_in (m_x m))
-                (x_off (m_x m')) (m_eof m')) as [ph [[[s r] o] e]].
-    destruct (pull_loop line_ops parser pf (s_ps (x_sh (m_x m'))) [] LShared (x_in (m_x m'))
-                (x_off (m_x m')) (m_eof m')) as [ph' [[[s' r'] o'] e']].
+    intros [HX [Hs [Hs' [He [Hpe [Hfe Hhi]]]]]]. unfold iter. pose proof HX as [H1 [H2 [H3 H4]]].
+    rewrite Hs, Hs', H1, H2, H3, He, Hpe, Hfe, Hhi.
+    set (sts := (if m_pend m' then m_hist m' else []) ++ [s_ps (x_sh (m_x m'))]).
+    pose proof (parse_phase_swap pf sts (m_pend m') (m_fed m') _ _ (x_off (m_x m')) (m_eof m') H4) as Hp.
+    pose proof (parse_phase_shared pf sts (m_pend m') (m_fed m') (x_in (m_x m)) (x_off (m_x m')) (m_eof m')) as Hsh.
+    pose proof (parse_phase_pops parser pf sts (m_pend m') (m_fed m') LShared (x_in (m_x m))
+                  (x_off (m_x m')) (m_eof m')) as Hpp.
+    destruct (parse_phase line_ops parser pf sts (m_pend m') (m_fed m') LShared (x_in (m_x m))
+                (x_off (m_x m')) (m_eof m')) as [ph [[[[g s] r] o] e]] eqn:Eph.
+    destruct (parse_phase line_ops parser pf sts (m_pend m') (m_fed m') LShared (x_in (m_x m'))
+                (x_off (m_x m')) (m_eof m')) as [ph' [[[[g' s'] r'] o'] e']].
     destruct ph as [pr| |]; try discriminate. destruct pr; try discriminate.
-    pose proof (exec_len c (mkX (x_sh (m_x m')) r o (x_evs (m_x m')))) as Hl.
+    destruct (parse_phase_from_parser _ _ _ _ _ _ _ _ _ _ _ _ _ Eph) as [fd Hfd].
+    pose proof (parser_reads_lines _ _ _ _ Hfd) as Hnl.
+    pose proof (exec_len c (mkX (x_sh (m_x m')) r o (x_evs (m_x m'))) Hnl) as Hl.
     destruct (exec line_ops c (mkX (x_sh (m_x m')) r o (x_evs (m_x m')))) as [y ex] eqn:Ex.
     cbn [fst x_in] in Hl. destruct ex; [discriminate|].
     intros Hn Hk. inversion Hn; subst n. cbn [m_x] in Hk.
     assert (Hkr : keeps r) by (unfold keeps in *; lia).
-    destruct (Hp Hkr) as [<- [<- [<- [<- Hsw]]]].
+    destruct (Hp Hkr) as [<- [<- [<- [<- [<- Hsw]]]]].
     assert (HX' : SX (mkX (x_sh (m_x m')) r o (x_evs (m_x m')))
                      (mkX (x_sh (m_x m')) r' o (x_evs (m_x m')))) by (repeat split; assumption).
-    pose proof (exec_swap c _ _ HX') as Hc. rewrite Ex in Hc. cbn [fst snd] in Hc.
+    pose proof (exec_swap c _ _ Hnl HX') as Hc. rewrite Ex in Hc. cbn [fst snd] in Hc.
     destruct (Hc Hk) as [Hy Hex].
     destruct (exec line_ops c (mkX (x_sh (m_x m')) r' o (x_evs (m_x m')))) as [y' ex'].
     cbn [fst snd] in *. subst ex' s. eexists. split; [reflexivity|].
@@ -577,7 +814,7 @@ Section Swap.
     induction k as [|k IH]; intros m m' n HS H Hk; cbn [iter_n] in *.
     - inversion H; subst. exists m'. split; [reflexivity | exact HS].
     - destruct (iter line_ops parser pf m) as [m1|r] eqn:E; [|discriminate].
-      pose proof (iter_n_len parser k pf m1 n H) as Hl.
+      pose proof (iter_n_len k pf m1 n H) as Hl.
       assert (Hk1 : keeps (x_in (m_x m1))) by (unfold keeps in *; lia).
       destruct (iter_swap pf m m' m1 HS E Hk1) as [m1' [E' HS1]]. rewrite E'.
       eapply IH; eassumption.
@@ -587,18 +824,21 @@ End Swap.
 (* after [k] iterations on LA ++ LB the input is exactly LB: then the same
    [k] iterations on LA ++ LB' do the same and leave LB' *)
 Theorem prefix_independence_lines parser (LA LB LB' : list line) (k pf : nat) (n : mstate) :
+  reads_lines parser ->
   LB <> [] ->
   iter_n line_ops parser k pf (init LShared (LA ++ LB)) = inl n ->
   x_in (m_x n) = LB ->
   exists n', iter_n line_ops parser k pf (init LShared (LA ++ LB')) = inl n' /\
     x_in (m_x n') = LB' /\ x_sh (m_x n') = x_sh (m_x n) /\ x_off (m_x n') = x_off (m_x n) /\
-    x_evs (m_x n') = x_evs (m_x n) /\ m_eof n' = m_eof n /\ m_src n' = LShared.
+    x_evs (m_x n') = x_evs (m_x n) /\ m_eof n' = m_eof n /\ m_src n' = LShared /\
+    m_pend n' = m_pend n /\ m_fed n' = m_fed n /\ m_hist n' = m_hist n.
 Proof.
-  intros Hne H Hin.
+  intros Hrl Hne H Hin.
   assert (HS : SM LB LB' (init LShared (LA ++ LB)) (init LShared (LA ++ LB'))).
   { unfold init. repeat split. now exists LA. }
   assert (Hk : keeps LB (x_in (m_x n))) by (unfold keeps; rewrite Hin; lia).
-  destruct (iter_n_swap parser LB LB' Hne k pf _ _ n HS H Hk) as [n' [H' [[H1 [H2 [H3 H4]]] [H5 [H6 H7]]]]].
+  destruct (iter_n_swap parser LB LB' Hrl Hne k pf _ _ n HS H Hk)
+    as [n' [H' [[H1 [H2 [H3 H4]]] [H5 [H6 [H7 [H8 [H9 H10]]]]]]]].
   exists n'. split; [exact H'|]. destruct H4 as [Y [HY HY']]. rewrite Hin in HY.
   assert (Y = []).
   { apply (f_equal (@length line)) in HY. rewrite app_length in HY. destruct Y; [reflexivity|]. cbn in HY. lia. }
@@ -610,7 +850,7 @@ Qed.
    file): only the parse phase touches the script lines.               *)
 
 Section SwapSep.
-  Context (parser : pstate -> list line -> pres) (LB LB' : list line).
+  Context (parser : list pstate -> list line -> pres) (LB LB' : list line).
   Hypothesis LB_nonempty : LB <> [].
 
   Definition src_lines (s : lsource) : list line :=
@@ -622,7 +862,7 @@ Section SwapSep.
     exists Y, s = LLines (Y ++ LB) /\ s' = LLines (Y ++ LB').
 
   Lemma pull_loop_sep_len (fuel : nat) : forall st fed X i off eof,
-    let '(_, (s, _, _, _)) := pull_loop line_ops parser fuel st fed (LLines X) i off eof in
+    let '(_, (_, s, _, _, _)) := pull_loop line_ops parser fuel st fed (LLines X) i off eof in
     exists X', s = LLines X' /\ (length X' <= length X)%nat.
   Proof.
     induction fuel as [|f IH]; intros st fed X i off eof; cbn [pull_loop].
@@ -636,12 +876,12 @@ Section SwapSep.
           -- destruct (parser st (fed ++ [b :: l])); try (exists X; split; [reflexivity | cbn; lia]).
              specialize (IH st (fed ++ [b :: l]) X i (off + 0) false).
              destruct (pull_loop line_ops parser f st (fed ++ [b :: l]) (LLines X) i (off + 0) false)
-               as [ph [[[s r] o] e]].
+               as [ph [[[[g s] r] o] e]].
              destruct IH as [X' [-> Hl]]. exists X'. split; [reflexivity | cbn; lia].
   Qed.
 
   Lemma pull_loop_sep_shrinks (f : nat) st fed l X i off :
-    let '(_, (s, _, _, _)) := pull_loop line_ops parser (S f) st fed (LLines (l :: X)) i off false in
+    let '(_, (_, s, _, _, _)) := pull_loop line_ops parser (S f) st fed (LLines (l :: X)) i off false in
     (length (src_lines s) <= length X)%nat.
   Proof.
     cbn [pull_loop op_pull line_ops line_pull orb]. destruct l as [|b l].
@@ -649,13 +889,13 @@ Section SwapSep.
     - pose proof (pull_loop_sep_len f st (fed ++ [b :: l]) X i (off + 0) false) as Hlen.
       destruct (parser st (fed ++ [b :: l])); try (cbn; lia).
       destruct (pull_loop line_ops parser f st (fed ++ [b :: l]) (LLines X) i (off + 0) false)
-        as [ph [[[s r] o] e]]. destruct Hlen as [X' [-> Hl]]. exact Hl.
+        as [ph [[[[g s] r] o] e]]. destruct Hlen as [X' [-> Hl]]. exact Hl.
   Qed.
 
   Lemma pull_loop_swap_sep (fuel : nat) : forall st fed s s' i off eof, swap_s s s' ->
-    let '(ph, (t, r, o, e)) := pull_loop line_ops parser fuel st fed s i off eof in
-    let '(ph', (t', r', o', e')) := pull_loop line_ops parser fuel st fed s' i off eof in
-    keeps_s t -> ph = ph' /\ r = r' /\ o = o' /\ e = e' /\ swap_s t t'.
+    let '(ph, (g, t, r, o, e)) := pull_loop line_ops parser fuel st fed s i off eof in
+    let '(ph', (g', t', r', o', e')) := pull_loop line_ops parser fuel st fed s' i off eof in
+    keeps_s t -> ph = ph' /\ g = g' /\ r = r' /\ o = o' /\ e = e' /\ swap_s t t'.
   Proof.
     induction fuel as [|f IH]; intros st fed s s' i off eof HS.
     - cbn [pull_loop]. intros _. repeat split. exact HS.
@@ -665,9 +905,9 @@ Section SwapSep.
         * pose proof LB_pos LB LB_nonempty as Hpos. destruct LB as [|l rest] eqn:ELB; [contradiction|].
           pose proof (pull_loop_sep_shrinks f st fed l rest i off) as Hsh.
           destruct (pull_loop line_ops parser (S f) st fed (LLines (l :: rest)) i off false)
-            as [ph [[[t r] o] e]].
+            as [ph [[[[g t] r] o] e]].
           destruct (pull_loop line_ops parser (S f) st fed (LLines LB') i off false)
-            as [ph' [[[t' r'] o'] e']].
+            as [ph' [[[[g' t'] r'] o'] e']].
           intros Hk. exfalso. unfold keeps_s in Hk. rewrite ELB in Hk. cbn [length] in Hk. lia.
         * cbn [pull_loop op_pull line_ops line_pull orb]. destruct y as [|b l].
           -- destruct (parser st (fed ++ [[]])); intros _; repeat split; now exists Y.
@@ -675,17 +915,36 @@ Section SwapSep.
              apply IH. now exists Y.
   Qed.
 
+  Lemma parse_phase_sep_len pf st pend fed X i off eof :
+    let '(_, (_, s, _, _, _)) := parse_phase line_ops parser pf st pend fed (LLines X) i off eof in
+    exists X', s = LLines X' /\ (length X' <= length X)%nat.
+  Proof.
+    unfold parse_phase. destruct pend; [|apply pull_loop_sep_len].
+    destruct (parser st fed); try (exists X; split; [reflexivity | lia]). apply pull_loop_sep_len.
+  Qed.
+
+  Lemma parse_phase_swap_sep pf st pend fed s s' i off eof : swap_s s s' ->
+    let '(ph, (g, t, r, o, e)) := parse_phase line_ops parser pf st pend fed s i off eof in
+    let '(ph', (g', t', r', o', e')) := parse_phase line_ops parser pf st pend fed s' i off eof in
+    keeps_s t -> ph = ph' /\ g = g' /\ r = r' /\ o = o' /\ e = e' /\ swap_s t t'.
+  Proof.
+    intros HS. unfold parse_phase. destruct pend; [|now apply pull_loop_swap_sep].
+    destruct (parser st fed); try (intros _; repeat split; exact HS). now apply pull_loop_swap_sep.
+  Qed.
+
   Definition SMs (m m' : mstate (I:=list line) (SRC:=lsource)) : Prop :=
-    m_x m = m_x m' /\ m_eof m = m_eof m' /\ swap_s (m_src m) (m_src m').
+    m_x m = m_x m' /\ m_eof m = m_eof m' /\ m_pend m = m_pend m' /\ m_fed m = m_fed m' /\
+    m_hist m = m_hist m' /\ swap_s (m_src m) (m_src m').
 
   Lemma iter_sep_len (pf : nat) (m n : mstate) X :
     m_src m = LLines X -> iter line_ops parser pf m = inl n ->
     exists X', m_src n = LLines X' /\ (length X' <= length X)%nat.
   Proof.
     intros Hs. unfold iter. rewrite Hs.
-    pose proof (pull_loop_sep_len pf (s_ps (x_sh (m_x m))) [] X (x_in (m_x m)) (x_off (m_x m)) (m_eof m)) as Hp.
-    destruct (pull_loop line_ops parser pf (s_ps (x_sh (m_x m))) [] (LLines X) (x_in (m_x m))
-                (x_off (m_x m)) (m_eof m)) as [ph [[[s' i'] off'] eof']].
+    set (sts := (if m_pend m then m_hist m else []) ++ [s_ps (x_sh (m_x m))]).
+    pose proof (parse_phase_sep_len pf sts (m_pend m) (m_fed m) X (x_in (m_x m)) (x_off (m_x m)) (m_eof m)) as Hp.
+    destruct (parse_phase line_ops parser pf sts (m_pend m) (m_fed m) (LLines X) (x_in (m_x m))
+                (x_off (m_x m)) (m_eof m)) as [ph [[[[g' s'] i'] off'] eof']].
     destruct ph as [r| |]; try discriminate. destruct r; try discriminate.
     destruct (exec line_ops c _) as [x2 ex]. destruct ex; [discriminate|].
     intros H. inversion H; subst. exact Hp.
@@ -706,16 +965,17 @@ Section SwapSep.
     SMs m m' -> iter line_ops parser pf m = inl n -> keeps_s (m_src n) ->
     exists n', iter line_ops parser pf m' = inl n' /\ SMs n n'.
   Proof.
-    intros [HX [He HS]]. unfold iter. rewrite <- HX, <- He.
-    pose proof (pull_loop_swap_sep pf (s_ps (x_sh (m_x m))) [] _ _ (x_in (m_x m)) (x_off (m_x m)) (m_eof m) HS) as Hp.
-    destruct (pull_loop line_ops parser pf (s_ps (x_sh (m_x m))) [] (m_src m) (x_in (m_x m))
-                (x_off (m_x m)) (m_eof m)) as [ph [[[t r] o] e]].
-    destruct (pull_loop line_ops parser pf (s_ps (x_sh (m_x m))) [] (m_src m') (x_in (m_x m))
-                (x_off (m_x m)) (m_eof m)) as [ph' [[[t' r'] o'] e']].
+    intros [HX [He [Hpe [Hfe [Hhi HS]]]]]. unfold iter. rewrite <- HX, <- He, <- Hpe, <- Hfe, <- Hhi.
+    set (sts := (if m_pend m then m_hist m else []) ++ [s_ps (x_sh (m_x m))]).
+    pose proof (parse_phase_swap_sep pf sts (m_pend m) (m_fed m) _ _ (x_in (m_x m)) (x_off (m_x m)) (m_eof m) HS) as Hp.
+    destruct (parse_phase line_ops parser pf sts (m_pend m) (m_fed m) (m_src m) (x_in (m_x m))
+                (x_off (m_x m)) (m_eof m)) as [ph [[[[g t] r] o] e]].
+    destruct (parse_phase line_ops parser pf sts (m_pend m) (m_fed m) (m_src m') (x_in (m_x m))
+                (x_off (m_x m)) (m_eof m)) as [ph' [[[[g' t'] r'] o'] e']].
     destruct ph as [pr| |]; try discriminate. destruct pr; try discriminate.
     destruct (exec line_ops c (mkX (x_sh (m_x m)) r o (x_evs (m_x m)))) as [y ex] eqn:Ex.
     destruct ex; [discriminate|]. intros Hn Hk. inversion Hn; subst n. cbn [m_src] in Hk.
-    destruct (Hp Hk) as [<- [<- [<- [<- Hsw]]]]. rewrite Ex.
+    destruct (Hp Hk) as [<- [<- [<- [<- [<- Hsw]]]]]. rewrite Ex.
     eexists. split; [reflexivity|]. repeat split. exact Hsw.
   Qed.
 
@@ -727,7 +987,7 @@ Section SwapSep.
     - inversion H; subst. exists m'. split; [reflexivity | exact HS].
     - destruct (iter line_ops parser pf m) as [m1|r] eqn:E; [|discriminate].
       assert (Hk1 : keeps_s (m_src m1)).
-      { destruct HS as [_ [_ [Y [Hs _]]]].
+      { destruct HS as [_ [_ [_ [_ [_ [Y [Hs _]]]]]]].
         destruct (iter_sep_len pf m m1 _ Hs E) as [X1 [Hs1 _]].
         destruct (iter_n_sep_len k pf m1 n X1 Hs1 H) as [X' [Hs' Hl']].
         unfold keeps_s in *. rewrite Hs' in Hk. rewrite Hs1. cbn [src_lines] in *. lia. }
@@ -741,25 +1001,29 @@ Theorem prefix_independence_lines_sep parser (LA LB LB' i : list line) (k pf : n
   iter_n line_ops parser k pf (init (LLines (LA ++ LB)) i) = inl n ->
   m_src n = LLines LB ->
   exists n', iter_n line_ops parser k pf (init (LLines (LA ++ LB')) i) = inl n' /\
-    m_src n' = LLines LB' /\ m_x n' = m_x n /\ m_eof n' = m_eof n.
+    m_src n' = LLines LB' /\ m_x n' = m_x n /\ m_eof n' = m_eof n /\
+    m_pend n' = m_pend n /\ m_fed n' = m_fed n /\ m_hist n' = m_hist n.
 Proof.
   intros Hne H Hsrc.
   assert (HS : SMs LB LB' (init (LLines (LA ++ LB)) i) (init (LLines (LA ++ LB')) i)).
   { unfold init. repeat split. now exists LA. }
   assert (Hk : keeps_s LB (m_src n)) by (unfold keeps_s; rewrite Hsrc; cbn; lia).
-  destruct (iter_n_swap_sep parser LB LB' Hne k pf _ _ n HS H Hk) as [n' [H' [H1 [H2 [Y [HY HY']]]]]].
+  destruct (iter_n_swap_sep parser LB LB' Hne k pf _ _ n HS H Hk) as [n' [H' [H1 [H2 [H3 [H4 [H5 [Y [HY HY']]]]]]]]].
   exists n'. split; [exact H'|]. rewrite Hsrc in HY. inversion HY as [HY1].
   assert (Y = []).
   { apply (f_equal (@length line)) in HY1. rewrite app_length in HY1. destruct Y; [reflexivity|]. cbn in HY1. lia. }
   subst Y. cbn [app] in HY'. repeat split; congruence.
 Qed.
 
+
 (* ------------------------------------------------------------------ *)
 (* The fuel computed from the size of the input never runs out.        *)
 
 Section Fuel.
-  Context (parser : pstate -> list line -> pres).
+  Context (parser : list pstate -> list line -> pres) (K : nat).
   Hypothesis parser_ends : ends_at_eof parser.
+  Hypothesis parser_depth : pend_depth parser K.
+  Hypothesis K_pos : (1 <= K)%nat.
 
   (* lines the script source can still deliver *)
   Definition src_size (s : lsource) (i : list line) : nat :=
@@ -778,7 +1042,7 @@ Section Fuel.
   Qed.
 
   Lemma pull_loop_measure (fuel : nat) : forall st fed s i off eof,
-    let '(_, (s', i', _, eof')) := pull_loop line_ops parser fuel st fed s i off eof in
+    let '(_, (_, s', i', _, eof')) := pull_loop line_ops parser fuel st fed s i off eof in
     (measure s' i' eof' <= measure s i eof)%nat.
   Proof.
     induction fuel as [|f IH]; intros st fed s i off eof; cbn [pull_loop]; [lia|].
@@ -790,11 +1054,11 @@ Section Fuel.
       + destruct (parser st (fed ++ [b :: l])); try lia.
         specialize (IH st (fed ++ [b :: l]) s' i' (off + n) false).
         destruct (pull_loop line_ops parser f st (fed ++ [b :: l]) s' i' (off + n) false)
-          as [ph [[[s2 i2] o2] e2]]. lia.
+          as [ph [[[[g2 s2] i2] o2] e2]]. lia.
   Qed.
 
   Lemma pull_loop_measure_strict (f : nat) st fed s i off :
-    let '(_, (s', i', _, eof')) := pull_loop line_ops parser (S f) st fed s i off false in
+    let '(_, (_, s', i', _, eof')) := pull_loop line_ops parser (S f) st fed s i off false in
     (measure s' i' eof' < measure s i false)%nat.
   Proof.
     cbn [pull_loop op_pull line_ops orb]. pose proof (pull_measure s i) as Hm.
@@ -803,7 +1067,7 @@ Section Fuel.
     - destruct (parser st (fed ++ [b :: l])); try lia.
       pose proof (pull_loop_measure f st (fed ++ [b :: l]) s' i' (off + n) false) as Hle.
       destruct (pull_loop line_ops parser f st (fed ++ [b :: l]) s' i' (off + n) false)
-        as [ph [[[s2 i2] o2] e2]]. lia.
+        as [ph [[[[g2 s2] i2] o2] e2]]. lia.
   Qed.
 
   Lemma pull_loop_fuel (fuel : nat) : forall st fed s i off eof,
@@ -820,58 +1084,111 @@ Section Fuel.
         apply IH; unfold measure in *; lia.
   Qed.
 
-  Lemma exec_measure (c : cmd) (x : xstate) (s : lsource) (eof : bool) :
-    (measure s (x_in (fst (exec line_ops c x))) eof <= measure s (x_in x) eof)%nat.
-  Proof.
-    pose proof (exec_len c x) as H. unfold measure. destruct s; cbn [src_size]; lia.
-  Qed.
+  Lemma measure_in_le (s : lsource) (i i' : list line) (eof : bool) :
+    (length i' <= length i)%nat -> (measure s i' eof <= measure s i eof)%nat.
+  Proof. intros H. unfold measure. destruct s; cbn [src_size]; lia. Qed.
 
   Definition m_measure (m : mstate (I:=list line) (SRC:=lsource)) : nat :=
     measure (m_src m) (x_in (m_x m)) (m_eof m).
 
+  (* while text is pending, the number of commands parsed out of it grows and
+     is bounded *)
+  Definition potential (m : mstate (I:=list line) (SRC:=lsource)) : nat :=
+    (m_measure m * K + if m_pend m then K - length (m_hist m) else 0)%nat.
+
+  Definition m_inv (m : mstate (I:=list line) (SRC:=lsource)) : Prop :=
+    wf (x_in (m_x m)) /\ (m_pend m = true -> (1 <= length (m_hist m) < K)%nat).
+
   Lemma iter_progress (pf : nat) (m : mstate) :
-    (m_measure m < pf)%nat ->
+    m_inv m -> (m_measure m < pf)%nat ->
     match iter line_ops parser pf m with
-    | inl m' => (m_measure m' < m_measure m)%nat
+    | inl m' => (potential m' < potential m)%nat /\ (m_measure m' <= m_measure m)%nat /\ m_inv m'
     | inr r => f_tag r <> FOutOfFuel
     end.
   Proof.
-    intros Hpf. unfold iter, m_measure in *.
+    intros [Hwf Hinv] Hpf. unfold iter.
+    set (sts := (if m_pend m then m_hist m else []) ++ [s_ps (x_sh (m_x m))]).
     destruct pf as [|pf]; [lia|].
-    pose proof (pull_loop_fuel (S pf) (s_ps (x_sh (m_x m))) [] (m_src m) (x_in (m_x m))
-                  (x_off (m_x m)) (m_eof m)) as Hfuel.
-    destruct (m_eof m) eqn:Eeof.
-    - (* the end of input has been seen: nothing is read, no command comes out *)
-      cbn [pull_loop orb app]. specialize (parser_ends (s_ps (x_sh (m_x m)))).
-      destruct (parser (s_ps (x_sh (m_x m))) [[]]); try discriminate. contradiction.
-    - pose proof (pull_loop_measure_strict pf (s_ps (x_sh (m_x m))) [] (m_src m) (x_in (m_x m))
-                    (x_off (m_x m))) as Hs.
-      destruct (pull_loop line_ops parser (S pf) (s_ps (x_sh (m_x m))) [] (m_src m) (x_in (m_x m))
-                  (x_off (m_x m)) false) as [ph [[[s' i'] off'] eof']].
-      cbn [fst] in Hfuel.
-      destruct ph as [r| |]; try discriminate.
-      + destruct r; try discriminate.
-        pose proof (exec_measure c (mkX (x_sh (m_x m)) i' off' (x_evs (m_x m))) s' eof') as He.
-        destruct (exec line_ops c _) as [x2 ex]. cbn [fst x_in] in He.
-        destruct ex; [discriminate|]. cbn [m_x m_src m_eof]. lia.
-      + exfalso. apply Hfuel; [lia | lia | reflexivity].
+    pose proof (parse_phase_pops parser (S pf) sts (m_pend m) (m_fed m) (m_src m) (x_in (m_x m))
+                  (x_off (m_x m)) (m_eof m)) as Hpops.
+    destruct (parse_phase line_ops parser (S pf) sts (m_pend m) (m_fed m) (m_src m) (x_in (m_x m))
+                (x_off (m_x m)) (m_eof m)) as [ph [[[[g' s'] i'] off'] eof']] eqn:Eph.
+    (* what the parse phase does to the measure, and that it does not run out of fuel *)
+    assert (Hph : (measure s' i' eof' <= m_measure m)%nat /\
+                  (m_pend m = false -> m_eof m = false -> (measure s' i' eof' < m_measure m)%nat) /\
+                  ph <> PhOutOfFuel /\
+                  (m_pend m = false -> m_eof m = true -> forall c p, ph <> PhDone (PComplete c p))).
+    { unfold parse_phase in Eph. unfold m_measure in *.
+      pose proof (pull_loop_measure (S pf) sts (if m_pend m then m_fed m else []) (m_src m)
+                    (x_in (m_x m)) (x_off (m_x m)) (m_eof m)) as Hle.
+      pose proof (pull_loop_fuel (S pf) sts (if m_pend m then m_fed m else []) (m_src m)
+                    (x_in (m_x m)) (x_off (m_x m)) (m_eof m)) as Hfu.
+      destruct (m_pend m) eqn:Epe.
+      - destruct (parser sts (m_fed m)) eqn:Ep;
+          [| inversion Eph; subst; repeat split; try lia; try discriminate ..].
+        rewrite Eph in Hle, Hfu. cbn [fst] in Hfu. repeat split; try lia; try discriminate.
+        apply Hfu; destruct (m_eof m); lia.
+      - rewrite Eph in Hle, Hfu. cbn [fst] in Hfu. repeat split; try lia.
+        + intros _ He. rewrite He in *.
+          pose proof (pull_loop_measure_strict pf sts [] (m_src m) (x_in (m_x m)) (x_off (m_x m))) as Hst.
+          rewrite Eph in Hst. exact Hst.
+        + apply Hfu; destruct (m_eof m); lia.
+        + intros _ He c p Hc. rewrite He in Eph. cbn [pull_loop orb app] in Eph.
+          subst sts. cbn [app] in Eph. specialize (parser_ends (s_ps (x_sh (m_x m)))).
+          destruct (parser [s_ps (x_sh (m_x m))] [[]]); inversion Eph; subst; try discriminate.
+          contradiction. }
+    destruct Hph as [Hle [Hlt [Hoof Hend]]].
+    destruct ph as [r| |]; try discriminate; [|contradiction].
+    destruct r; try discriminate.
+    destruct (parse_phase_from_parser _ _ _ _ _ _ _ _ _ _ _ _ _ Eph) as [fd Hfd].
+    destruct Hpops as [j Hj].
+    assert (Hwf' : wf i') by (rewrite Hj; now apply wf_skipn).
+    pose proof (exec_wf c (mkX (x_sh (m_x m)) i' off' (x_evs (m_x m))) Hwf') as [Hwf2 Hl2].
+    destruct (exec line_ops c (mkX (x_sh (m_x m)) i' off' (x_evs (m_x m)))) as [x2 ex].
+    cbn [fst x_in] in *. destruct ex; [discriminate|].
+    pose proof (measure_in_le s' _ _ eof' Hl2) as Hm2.
+    assert (Hsts : (length sts = (if m_pend m then length (m_hist m) else 0) + 1)%nat).
+    { subst sts. rewrite app_length. destruct (m_pend m); cbn; lia. }
+    unfold potential, m_measure in *. cbn [m_x m_src m_eof m_pend m_hist].
+    assert (Hinv' : m_inv (mkM x2 s' eof' pend (if pend then g' else []) (if pend then sts else []))).
+    { split; [exact Hwf2|]. cbn [m_pend m_hist]. intros ->. specialize (parser_depth _ _ _ Hfd). lia. }
+    split; [|split; [lia | exact Hinv']].
+    set (M := measure (m_src m) (x_in (m_x m)) (m_eof m)) in *.
+    set (M2 := measure s' (x_in x2) eof') in *.
+    assert (HM : (M2 * K <= M * K)%nat) by (apply Nat.mul_le_mono_r; lia).
+    destruct (m_pend m) eqn:Epe.
+    - specialize (Hinv eq_refl). destruct pend.
+      + specialize (parser_depth _ _ _ Hfd). lia.
+      + lia.
+    - destruct (m_eof m) eqn:Ee.
+      + exfalso. eapply Hend; reflexivity.
+      + specialize (Hlt eq_refl eq_refl).
+        assert (HM' : (M2 * K + K <= M * K)%nat).
+        { replace (M2 * K + K)%nat with ((S M2) * K)%nat by lia. apply Nat.mul_le_mono_r. lia. }
+        destruct pend.
+        * specialize (parser_depth _ _ _ Hfd). lia.
+        * lia.
   Qed.
 
   Lemma loop_fuel (fuel pf : nat) : forall m,
-    (m_measure m < fuel)%nat -> (m_measure m < pf)%nat ->
+    m_inv m -> (potential m < fuel)%nat -> (m_measure m < pf)%nat ->
     f_tag (loop line_ops parser fuel pf m) <> FOutOfFuel.
   Proof.
-    induction fuel as [|f IH]; intros m Hf Hpf; [lia|]. cbn [loop].
-    pose proof (iter_progress pf m Hpf) as Hi.
+    induction fuel as [|f IH]; intros m Hinv Hf Hpf; [lia|]. cbn [loop].
+    pose proof (iter_progress pf m Hinv Hpf) as Hi.
     destruct (iter line_ops parser pf m) as [m'|r]; [|exact Hi].
-    apply IH; lia.
+    destruct Hi as [Hp [Hm Hinv']]. apply IH; [assumption | lia | lia].
   Qed.
 
-  Lemma run_fuel (fuel : nat) (s : lsource) (i : list line) :
-    (src_size s i + 2 <= fuel)%nat ->
-    f_tag (run line_ops parser fuel s i) <> FOutOfFuel.
+  Lemma run_fuel (fuel pf : nat) (s : lsource) (i : list line) :
+    wf i -> (src_size s i + 2 <= pf)%nat -> (pf * K + 1 <= fuel)%nat ->
+    f_tag (run line_ops parser fuel pf s i) <> FOutOfFuel.
   Proof.
-    intros H. unfold run. apply loop_fuel; unfold m_measure, init, measure; cbn; lia.
+    intros Hwf Hpf Hf. unfold run. apply loop_fuel.
+    - split; [exact Hwf | discriminate].
+    - unfold potential, m_measure, init, measure. cbn [m_x m_src m_eof m_pend x_in].
+      assert ((src_size s i + 1) * K <= pf * K)%nat by (apply Nat.mul_le_mono_r; lia). lia.
+    - unfold m_measure, init, measure. cbn. lia.
   Qed.
 End Fuel.
 
@@ -885,78 +1202,127 @@ Qed.
 (* ------------------------------------------------------------------ *)
 (* A run of the line-level machine is line by line.                    *)
 
-Lemma Forall_skipn {A} (P : A -> Prop) (j : nat) : forall l, Forall P l -> Forall P (skipn j l).
-Proof.
-  induction j as [|j IH]; intros l H; [exact H|]. destruct l; [constructor|].
-  inversion H; subst. cbn [skipn]. now apply IH.
-Qed.
-
 Section LineByLine.
-  Context (parser : pstate -> list line -> pres).
+  Context (parser : list pstate -> list line -> pres).
 
-  Lemma exec_no_empty (c : cmd) (x : xstate) :
-    no_empty (x_in x) -> no_empty (x_in (fst (exec line_ops c x))).
+  Ltac case_if := match goal with |- context [if ?e then _ else _] => destruct e end.
+
+  Lemma parse_phase_takes (pf : nat) sts pend fed0 i off eof r fed' s' i' off' eof' :
+    no_empty i ->
+    parse_phase line_ops parser pf sts pend fed0 LShared i off eof
+      = (PhDone r, (fed', s', i', off', eof')) ->
+    exists k,
+      decides parser sts (if pend then fed0 else []) (if pend then 0 else 1)%nat
+              (if eof then [] else i) k r /\
+      fed' = (if pend then fed0 else []) ++ firstn k (feedable (if eof then [] else i)) /\
+      s' = LShared /\
+      i' = (if eof then i else skipn k i) /\
+      off' = (if eof then off else off + nlen (concat (firstn k i))) /\
+      eof' = eof || Nat.eqb k (S (length i)).
   Proof.
-    intros H. destruct (exec_pops c x) as [n [j [-> _]]]. now apply Forall_skipn.
+    intros Hne H. unfold parse_phase in H.
+    (* the loop proper, from a buffer content [f0] on which the parser asked for more *)
+    assert (Hloop : forall f0,
+      pull_loop line_ops parser pf sts f0 LShared i off eof = (PhDone r, (fed', s', i', off', eof')) ->
+      exists k, (1 <= k <= S (length (if eof then [] else i)))%nat /\
+        parser sts (f0 ++ firstn k (feedable (if eof then [] else i))) = r /\ r <> PNeedMore /\
+        (forall j, (1 <= j < k)%nat ->
+           parser sts (f0 ++ firstn j (feedable (if eof then [] else i))) = PNeedMore) /\
+        fed' = f0 ++ firstn k (feedable (if eof then [] else i)) /\ s' = LShared /\
+        i' = (if eof then i else skipn k i) /\
+        off' = (if eof then off else off + nlen (concat (firstn k i))) /\
+        eof' = eof || Nat.eqb k (S (length i))).
+    { intros f0 Hl. destruct eof.
+      - destruct pf as [|pf]; [discriminate|]. cbn [pull_loop orb] in Hl. rewrite N.add_0_r in Hl.
+        exists 1%nat. cbn [feedable app firstn length].
+        destruct (parser sts (f0 ++ [[]])) eqn:Ep; inversion Hl; subst;
+          repeat split; try lia; try discriminate; try exact Ep.
+      - destruct (pull_loop_decides parser pf sts f0 i off r fed' s' i' off' eof' Hne Hl)
+          as [k [Hk [Hp [Hr [Hmin [Hfed [Hs [Hi [Ho He]]]]]]]]].
+        exists k. repeat split; try assumption; try lia. }
+    destruct pend.
+    - destruct (parser sts fed0) eqn:Ep.
+      + destruct (Hloop fed0 H) as [k [Hk [Hp [Hr [Hmin [Hfed [Hs [Hi [Ho He]]]]]]]]].
+        exists k. split; [|repeat split; assumption].
+        unfold decides. repeat split; try assumption; try lia.
+        intros j Hj. destruct j as [|j]; [cbn [firstn]; rewrite app_nil_r; exact Ep|].
+        apply Hmin. lia.
+      + inversion H; subst. exists 0%nat. cbn [firstn]. rewrite app_nil_r.
+        split; [|split; [reflexivity | split; [reflexivity | split; [case_if; reflexivity |
+                 split; [case_if; [reflexivity | cbn; now rewrite N.add_0_r] |
+                         cbn [Nat.eqb]; now rewrite orb_false_r]]]]].
+        unfold decides. cbn [firstn]. rewrite app_nil_r.
+        repeat split; try lia; try discriminate; try exact Ep.
+      + inversion H; subst. exists 0%nat. cbn [firstn]. rewrite app_nil_r.
+        split; [|split; [reflexivity | split; [reflexivity | split; [case_if; reflexivity |
+                 split; [case_if; [reflexivity | cbn; now rewrite N.add_0_r] |
+                         cbn [Nat.eqb]; now rewrite orb_false_r]]]]].
+        unfold decides. cbn [firstn]. rewrite app_nil_r.
+        repeat split; try lia; try discriminate; try exact Ep.
+      + inversion H; subst. exists 0%nat. cbn [firstn]. rewrite app_nil_r.
+        split; [|split; [reflexivity | split; [reflexivity | split; [case_if; reflexivity |
+                 split; [case_if; [reflexivity | cbn; now rewrite N.add_0_r] |
+                         cbn [Nat.eqb]; now rewrite orb_false_r]]]]].
+        unfold decides. cbn [firstn]. rewrite app_nil_r.
+        repeat split; try lia; try discriminate; try exact Ep.
+      + inversion H; subst. exists 0%nat. cbn [firstn]. rewrite app_nil_r.
+        split; [|split; [reflexivity | split; [reflexivity | split; [case_if; reflexivity |
+                 split; [case_if; [reflexivity | cbn; now rewrite N.add_0_r] |
+                         cbn [Nat.eqb]; now rewrite orb_false_r]]]]].
+        unfold decides. cbn [firstn]. rewrite app_nil_r.
+        repeat split; try lia; try discriminate; try exact Ep.
+    - destruct (Hloop [] H) as [k [Hk [Hp [Hr [Hmin [Hfed [Hs [Hi [Ho He]]]]]]]]].
+      exists k. split; [|repeat split; assumption].
+      unfold decides. repeat split; try assumption; lia.
   Qed.
 
   Lemma loop_line_by_line (fuel pf : nat) : forall m,
-    m_src m = LShared -> no_empty (x_in (m_x m)) ->
+    m_src m = LShared -> wf (x_in (m_x m)) ->
     f_tag (loop line_ops parser fuel pf m) <> FOutOfFuel ->
     f_tag (loop line_ops parser fuel pf m) <> FStuck ->
-    line_by_line parser (m_x m) (m_eof m) (loop line_ops parser fuel pf m).
+    line_by_line parser (m_x m) (m_eof m) (m_pend m) (m_fed m) (m_hist m)
+      (loop line_ops parser fuel pf m).
   Proof.
-    induction fuel as [|f IH]; intros m Hsrc Hne Hof Hst; cbn [loop] in *.
+    induction fuel as [|f IH]; intros m Hsrc Hwf Hof Hst; cbn [loop] in *.
     - exfalso. apply Hof. reflexivity.
     - unfold iter in *. rewrite Hsrc in *. destruct (m_x m) as [sh i off evs] eqn:Ex.
-      cbn [x_sh x_in x_off x_evs] in *. destruct (m_eof m) eqn:Eeof.
-      + (* the end of input has been seen: nothing is read *)
-        destruct pf as [|pf]; [exfalso; apply Hof; reflexivity|].
-        cbn [pull_loop orb app] in *. rewrite N.add_0_r in *.
-        assert (Htake : take_lines 0 (mkX sh i off evs) = mkX sh i off evs).
-        { unfold take_lines. cbn. now rewrite N.add_0_r. }
-        destruct (parser (s_ps sh) [[]]) eqn:Ep.
-        * exfalso. apply Hst. reflexivity.
-        * destruct (exec line_ops c (mkX sh i off evs)) as [x2 ex] eqn:Ec.
-          pose proof (exec_no_empty c (mkX sh i off evs) Hne) as Hne2. rewrite Ec in Hne2.
-          destruct ex.
-          -- eapply (LBL_exit parser _ true 0%nat c); [|rewrite Htake; exact Ec].
-             cbn. repeat split; [exact Ep | discriminate].
-          -- eapply (LBL_step parser _ true 0%nat c); [|rewrite Htake; exact Ec|].
-             ++ cbn. repeat split; [exact Ep | discriminate].
-             ++ apply (IH (mkM x2 LShared true)); try assumption. reflexivity.
-        * assert (Hph : phase_takes parser (mkX sh i off evs) true 0%nat PError)
-            by (cbn; repeat split; [exact Ep | discriminate]).
-          pose proof (LBL_syntax parser _ true 0%nat Hph) as L. rewrite Htake in L. exact L.
-        * assert (Hph : phase_takes parser (mkX sh i off evs) true 0%nat PEnd)
-            by (cbn; repeat split; [exact Ep | discriminate]).
-          pose proof (LBL_end parser _ true 0%nat Hph) as L. rewrite Htake in L. exact L.
-        * assert (Hph : phase_takes parser (mkX sh i off evs) true 0%nat PUnknown)
-            by (cbn; repeat split; [exact Ep | discriminate]).
-          pose proof (LBL_unknown parser _ true 0%nat Hph) as L. rewrite Htake in L. exact L.
-      + pose proof (pull_loop_decides parser pf (s_ps sh) [] i off) as Hd.
-        destruct (pull_loop line_ops parser pf (s_ps sh) [] LShared i off false)
-          as [ph [[[s' i'] off'] eof']].
-        destruct ph as [r| |]; [| exfalso; apply Hst; reflexivity | exfalso; apply Hof; reflexivity].
-        destruct (Hd r s' i' off' eof' Hne eq_refl)
-          as [k [Hk [Hp [Hr [Hmin [-> [-> [-> ->]]]]]]]].
-        cbn [app] in Hp, Hmin.
-        assert (Hph : phase_takes parser (mkX sh i off evs) false k r).
-        { cbn. unfold decides. repeat split; try assumption; lia. }
-        change (mkX sh (skipn k i) (off + nlen (concat (firstn k i))) evs)
-          with (take_lines k (mkX sh i off evs)) in *.
-        destruct r.
-        * contradiction.
-        * destruct (exec line_ops c (take_lines k (mkX sh i off evs))) as [x2 ex] eqn:Ec.
-          pose proof (exec_no_empty c (take_lines k (mkX sh i off evs))) as Hne2.
-          rewrite Ec in Hne2. cbn [fst take_lines x_in] in Hne2.
-          specialize (Hne2 (Forall_skipn _ k i Hne)).
-          destruct ex.
-          -- eapply LBL_exit; eassumption.
-          -- eapply LBL_step; [eassumption | eassumption|].
-             apply (IH (mkM x2 LShared (Nat.eqb k (S (length i))))); try assumption. reflexivity.
-        * exact (LBL_syntax parser (mkX sh i off evs) false k Hph).
-        * exact (LBL_end parser (mkX sh i off evs) false k Hph).
-        * exact (LBL_unknown parser (mkX sh i off evs) false k Hph).
+      cbn [x_sh x_in x_off x_evs] in *.
+      set (x := mkX sh i off evs) in *.
+      change ((if m_pend m then m_hist m else []) ++ [s_ps sh])
+        with (step_sts x (m_pend m) (m_hist m)) in *.
+      pose proof (parse_phase_takes pf (step_sts x (m_pend m) (m_hist m)) (m_pend m) (m_fed m)
+                    i off (m_eof m)) as Ht.
+      destruct (parse_phase line_ops parser pf (step_sts x (m_pend m) (m_hist m)) (m_pend m)
+                  (m_fed m) LShared i off (m_eof m)) as [ph [[[[g' s'] i'] off'] eof']].
+      destruct ph as [r| |]; [| exfalso; apply Hst; reflexivity | exfalso; apply Hof; reflexivity].
+      destruct (Ht r g' s' i' off' eof' (wf_no_empty _ Hwf) eq_refl)
+        as [k [Hdec [Hg [-> [Hi [Ho He]]]]]].
+      assert (Hph : phase_takes parser x (m_eof m) (m_pend m) (m_fed m) (m_hist m) k r) by exact Hdec.
+      assert (Hx' : mkX sh i' off' evs = after_phase x (m_eof m) k).
+      { unfold after_phase, take_lines, x. cbn [x_sh x_in x_off x_evs]. subst i' off'.
+        destruct (m_eof m); reflexivity. }
+      assert (Hwf' : wf i').
+      { subst i'. destruct (m_eof m); [exact Hwf | now apply wf_skipn]. }
+      rewrite Hx' in *.
+      destruct r.
+      + exfalso. destruct Hdec as [_ [_ [Hr _]]]. now apply Hr.
+      + pose proof (exec_wf c (after_phase x (m_eof m) k)) as Hwf2.
+        rewrite <- Hx' in Hwf2 at 1. specialize (Hwf2 Hwf'). destruct Hwf2 as [Hwf2 _].
+        destruct (exec line_ops c (after_phase x (m_eof m) k)) as [x2 ex] eqn:Ec.
+        cbn [fst] in Hwf2. destruct ex.
+        * eapply LBL_exit; eassumption.
+        * eapply LBL_step; [exact Hph | exact Ec |].
+          assert (Hfed : (if pend then g' else []) = (if pend then fed_after x (m_eof m) (m_pend m) (m_fed m) k else []))
+            by (unfold fed_after; now rewrite Hg).
+          assert (Heof : eof' = eof_after x (m_eof m) k) by (unfold eof_after; exact He).
+          rewrite <- Hfed, <- Heof.
+          apply (IH (mkM x2 LShared eof' pend (if pend then g' else [])
+                         (if pend then step_sts x (m_pend m) (m_hist m) else []))); try assumption.
+          reflexivity.
+      + exact (LBL_syntax parser x (m_eof m) (m_pend m) (m_fed m) (m_hist m) k Hph).
+      + assert (Es : x_status (after_phase x (m_eof m) k) = x_status x)
+          by (unfold after_phase; destruct (m_eof m); reflexivity).
+        rewrite Es. exact (LBL_end parser x (m_eof m) (m_pend m) (m_fed m) (m_hist m) k Hph).
+      + exact (LBL_unknown parser x (m_eof m) (m_pend m) (m_fed m) (m_hist m) k Hph).
   Qed.
 End LineByLine.
